@@ -99,6 +99,8 @@ type Opts struct {
 	Always     []string `json:"always,omitempty"`
 	Recursive  []string `json:"recursive,omitempty"`
 	Cnf        bool     `json:"cnf"`
+	// IssTime: "" (no time claims) | valid | expired | notyet | futureiat (hours away, the leeway is a minute)
+	IssTime string `json:"iss_time,omitempty"`
 }
 
 // Play is one presentation of an issued SD-JWT and one verifier call.
@@ -112,9 +114,11 @@ type Play struct {
 	// Victim: index (into the chosen disclosures) of the disclosure an attack works on; -1 or out of range = the last
 	Victim int `json:"victim"`
 	// holder binding
-	HB       string `json:"hb,omitempty"` // "" none | holder | attacker
-	HBNonce  string `json:"hb_nonce,omitempty"`
-	HBAud    string `json:"hb_aud,omitempty"`
+	HB      string `json:"hb,omitempty"` // "" none | holder | attacker
+	HBNonce string `json:"hb_nonce,omitempty"`
+	HBAud   string `json:"hb_aud,omitempty"`
+	// HBIat: "" (now) | future (two hours ahead: iat outside the leeway) | past (two hours ago)
+	HBIat    string `json:"hb_iat,omitempty"`
 	Required bool   `json:"required,omitempty"`
 	VNonce   string `json:"v_nonce,omitempty"`
 	VAud     string `json:"v_aud,omitempty"`
@@ -770,6 +774,20 @@ func (o *Opts) issuerOpts() []issuer.NewOpt {
 		out = append(out, issuer.WithHolderPublicKey(pHolder.jwk))
 	}
 
+	now := time.Now()
+
+	switch o.IssTime {
+	case "valid":
+		out = append(out, issuer.WithIssuedAt(jwt.NewNumericDate(now.Add(-time.Hour))), issuer.WithNotBefore(jwt.NewNumericDate(now.Add(-time.Hour))),
+			issuer.WithExpiry(jwt.NewNumericDate(now.Add(3*time.Hour))))
+	case "expired":
+		out = append(out, issuer.WithIssuedAt(jwt.NewNumericDate(now.Add(-5*time.Hour))), issuer.WithExpiry(jwt.NewNumericDate(now.Add(-2*time.Hour))))
+	case "notyet":
+		out = append(out, issuer.WithNotBefore(jwt.NewNumericDate(now.Add(2*time.Hour))), issuer.WithExpiry(jwt.NewNumericDate(now.Add(5*time.Hour))))
+	case "futureiat":
+		out = append(out, issuer.WithIssuedAt(jwt.NewNumericDate(now.Add(2*time.Hour))))
+	}
+
 	return out
 }
 
@@ -891,7 +909,9 @@ func (r *runner) run(sc *Scenario) {
 			Observed: map[string]interface{}{"status": st, "detail": detail}}
 		s0 := newSym(o.Alg)
 
-		if st == 0 {
+		if st == 0 && o.IssTime != "" {
+			rec.Observed = map[string]interface{}{"payload": is.payload, "disclosures": len(is.discs)}
+		} else if st == 0 {
 			rec.Coq = fmt.Sprintf("CIssue %s %s 0%%N %s %s", o.coq(pHolder.sym), s0.members(claims), is.s.val(is.payload, false), is.s.discs(is.discs))
 			rec.Observed = map[string]interface{}{"payload": is.payload, "disclosures": len(is.discs)}
 		} else {
@@ -1064,6 +1084,7 @@ func (r *runner) play(sc *Scenario, is *issued, p *Play, dist []string) {
 	expectReject := false
 	sigOK := true
 	presented := append([]string{}, chosen...)
+	selPaths := append([]string{}, p.Sel...)
 
 	var hopts []holder.Option
 
@@ -1075,13 +1096,23 @@ func (r *runner) play(sc *Scenario, is *issued, p *Play, dist []string) {
 			who = pAttacker
 		}
 
-		info := &holder.BindingInfo{Payload: holder.BindingPayload{Nonce: p.HBNonce, Audience: p.HBAud, IssuedAt: jwt.NewNumericDate(time.Now())}, Signer: who.signer}
+		hbIat := time.Now()
+
+		switch p.HBIat {
+		case "future":
+			hbIat = hbIat.Add(2 * time.Hour)
+		case "past":
+			hbIat = hbIat.Add(-2 * time.Hour)
+		}
+
+		info := &holder.BindingInfo{Payload: holder.BindingPayload{Nonce: p.HBNonce, Audience: p.HBAud, IssuedAt: jwt.NewNumericDate(hbIat)}, Signer: who.signer}
 		if o.V5 {
 			info.Headers = jose.Headers{jose.HeaderType: "kb+jwt"}
 		}
 
 		hopts = append(hopts, holder.WithHolderVerification(info))
-		hbTerm = fmt.Sprintf("(Some {| hb_key := (%d)%%Z; hb_nonce := %s; hb_aud := %s; hb_ok := true |})", who.sym, hx.CoqString(p.HBNonce), hx.CoqString(p.HBAud))
+		hbTerm = fmt.Sprintf("(Some {| hb_key := (%d)%%Z; hb_nonce := %s; hb_aud := %s; hb_ok := true; hb_iat := Some (%d)%%Z |})", who.sym, hx.CoqString(p.HBNonce),
+			hx.CoqString(p.HBAud), hbIat.Unix())
 	}
 
 	pres, perr := holder.CreatePresentation(cfi, chosen, hopts...)
@@ -1126,6 +1157,31 @@ func (r *runner) play(sc *Scenario, is *issued, p *Play, dist []string) {
 
 	switch p.Attack {
 	case "", "orphan":
+	case "kb-reuse":
+		// the binding JWT made for one presentation is put next to ANOTHER parent-closed choice of the holder's own
+		// disclosures: the binding of this draft carries key, nonce, audience and iat, no hash of the disclosures
+		// (sd_hash came with later drafts), so the verifier accepts it and outputs exactly the new choice
+		if p.HB == "" {
+			return
+		}
+
+		var other []string
+
+		if len(chosen) == 0 {
+			for _, d := range is.real() {
+				if is.sites[d].parent == "" {
+					other = append(other, d)
+				}
+			}
+		}
+
+		chosen, presented, selPaths = other, append([]string{}, other...), nil
+		selSet = map[string]bool{}
+
+		for _, d := range other {
+			selSet[d] = true
+			selPaths = append(selPaths, is.sites[d].path)
+		}
 	case "foreign":
 		other, st, _ := doIssue(is.claims, o, pIssuer.signer)
 		if st != 0 || len(other.real()) == 0 {
@@ -1239,7 +1295,7 @@ func (r *runner) play(sc *Scenario, is *issued, p *Play, dist []string) {
 		return
 	}
 
-	if p.Attack != "" {
+	if p.Attack != "" && p.Attack != "kb-reuse" {
 		expectReject = true
 	}
 
@@ -1257,6 +1313,11 @@ func (r *runner) play(sc *Scenario, is *issued, p *Play, dist []string) {
 
 	if p.VAud != "" {
 		vopts = append(vopts, verifier.WithExpectedAudienceForHolderVerification(p.VAud))
+	}
+
+	switch o.IssTime {
+	case "expired", "notyet", "futureiat":
+		expectReject = true
 	}
 
 	// holder binding expectations
@@ -1288,6 +1349,15 @@ func (r *runner) play(sc *Scenario, is *issued, p *Play, dist []string) {
 			expectReject = true
 			hbLabel = "hb-wrong-aud"
 		}
+
+		if p.HBIat == "future" {
+			expectReject = true
+			hbLabel = "hb-iat-in-future"
+		}
+	}
+
+	if o.IssTime != "" {
+		hbLabel += "+iss-" + o.IssTime
 	}
 
 	var (
@@ -1295,6 +1365,8 @@ func (r *runner) play(sc *Scenario, is *issued, p *Play, dist []string) {
 		verr   error
 		vpanic interface{}
 	)
+
+	verifyNow := time.Now()
 
 	func() {
 		defer func() { vpanic = recover() }()
@@ -1320,8 +1392,8 @@ func (r *runner) play(sc *Scenario, is *issued, p *Play, dist []string) {
 		outTerm = is.s.val(outPlain, false)
 	}
 
-	rec.Coq = fmt.Sprintf("CVerify {| vo_required := %s; vo_nonce := %s; vo_aud := %s |} {| p_sig_ok := %s; p_payload := %s; p_discs := %s; p_hb := %s |} %s %s",
-		hx.CoqBool(p.Required), hx.CoqString(p.VNonce), hx.CoqString(p.VAud), hx.CoqBool(sigOK), is.s.val(is.payload, false), is.s.discs(presented), hbTerm,
+	rec.Coq = fmt.Sprintf("CVerify {| vo_required := %s; vo_nonce := %s; vo_aud := %s; vo_now := (%d)%%Z; vo_leeway := 60%%Z |} {| p_sig_ok := %s; p_payload := %s; p_discs := %s; p_hb := %s |} %s %s",
+		hx.CoqBool(p.Required), hx.CoqString(p.VNonce), hx.CoqString(p.VAud), verifyNow.Unix(), hx.CoqBool(sigOK), is.s.val(is.payload, false), is.s.discs(presented), hbTerm,
 		hx.CoqBool(accepted), outTerm)
 
 	switch {
@@ -1354,6 +1426,12 @@ func (r *runner) play(sc *Scenario, is *issued, p *Play, dist []string) {
 	expected, _ := expObj.(map[string]interface{})
 	expected["iss"] = "iss"
 
+	for _, k := range []string{"iat", "nbf", "exp"} {
+		if v, ok := is.payload[k]; ok {
+			expected[k] = plain(v)
+		}
+	}
+
 	if o.Cnf {
 		expected["cnf"] = map[string]interface{}{"jwk": plain(pHolder.jwk)}
 	}
@@ -1361,7 +1439,9 @@ func (r *runner) play(sc *Scenario, is *issued, p *Play, dist []string) {
 	rrec := &hx.Record{Case: one, Class: "reveal|" + class, Dist: append([]string{"reveal"}, dist...),
 		Observed: map[string]interface{}{"out": outPlain, "expected": expected}}
 	// the model's specification function against the oracle's independent expectation (claims minus undisclosed sites)
-	rrec.Coq = fmt.Sprintf("CReveal %s %s %s %s", o.coq(pHolder.sym), newSym(o.Alg).members(is.claims), coqPaths(p.Sel), is.s.val(expected, false))
+	if o.IssTime == "" {
+		rrec.Coq = fmt.Sprintf("CReveal %s %s %s %s", o.coq(pHolder.sym), newSym(o.Alg).members(is.claims), coqPaths(selPaths), is.s.val(expected, false))
+	}
 
 	if !reflect.DeepEqual(expected, outPlain) {
 		rrec.Oracle = "fail"
@@ -1862,6 +1942,11 @@ func hbPlays(sel []string) []Play {
 		Play{Sel: sel, Victim: -1, HB: "holder", HBNonce: "n2", HBAud: "aud1", VNonce: "n1"},
 		Play{Sel: sel, Victim: -1, HB: "attacker", HBNonce: "n1", HBAud: "aud1", Required: true, VNonce: "n1", VAud: "aud1"},
 		Play{Sel: sel, Victim: -1, HB: "attacker", HBNonce: "n1", HBAud: "aud1"},
+		Play{Sel: sel, Victim: -1, HB: "holder", HBNonce: "n1", HBAud: "aud1", HBIat: "future", Required: true, VNonce: "n1", VAud: "aud1"},
+		Play{Sel: sel, Victim: -1, HB: "holder", HBNonce: "n1", HBAud: "aud1", HBIat: "future"},
+		Play{Sel: sel, Victim: -1, HB: "holder", HBNonce: "n1", HBAud: "aud1", HBIat: "past", Required: true, VNonce: "n1", VAud: "aud1"},
+		Play{Sel: sel, Victim: -1, Attack: "kb-reuse", HB: "holder", HBNonce: "n1", HBAud: "aud1", Required: true, VNonce: "n1", VAud: "aud1"},
+		Play{Sel: sel, Victim: -1, Attack: "kb-reuse", HB: "holder", HBNonce: "n2", HBAud: "aud1", Required: true, VNonce: "n1", VAud: "aud1"},
 	)
 
 	return out
@@ -1952,6 +2037,7 @@ func main() {
 		sc := g.scenario(false)
 		sc.Opts.Decoys = sc.Opts.Decoys && !sc.Opts.V5
 		sc.Opts.Cnf = i%4 != 3
+		sc.Opts.IssTime = []string{"", "", "valid", "", "expired", "", "notyet", "", "futureiat", "valid"}[i%10]
 
 		var claims map[string]interface{}
 
